@@ -155,6 +155,27 @@ Definition way_polygon (T : list rule) (nodes : list Z) (ts : tags) : res bool :
     | _, _ => IndexPanic
     end.
 
+(* The same function over full WayNode values (way.go: type WayNode struct { ID; Version;
+   ChangesetID; Lat; Lon }).  The code reads len(w.Nodes), w.Nodes[0].ID and
+   w.Nodes[len(w.Nodes)-1].ID and nothing else of the nodes: annotations (version, changeset,
+   location; lat/lon here in units of 1e-7 degree) are carried by the input and never looked at.
+   This is the function the harness cases are judged with. *)
+Record waynode := mkWayNode { wid : Z; wver : Z; wcs : Z; wlat : Z; wlon : Z }.
+
+Definition way_polygon_wn (T : list rule) (nodes : list waynode) (ts : tags) : res bool :=
+  if length nodes <=? 3 then Val false
+  else
+    match nth_error nodes 0, nth_error nodes (length nodes - 1) with
+    | Some a, Some b =>
+        if negb (Z.eqb (wid a) (wid b)) then Val false
+        else
+          let area := find "area" ts in
+          if String.eqb area "no" then Val false
+          else if negb (String.eqb area "") then Val true
+          else rule_loop T ts
+    | _, _ => IndexPanic
+    end.
+
 (* func (r *Relation) Polygon() bool *)
 Definition relation_polygon (ts : tags) : bool :=
   let t := find "type" ts in
